@@ -287,4 +287,74 @@ def TypeMatches (typ : Nat) : RData → Prop
   | .caa .. => typ = 257
   | .raw _ => typ ∉ [1, 2, 5, 12, 6, 15, 16, 28, 29, 33, 37, 41, 43, 46, 47, 48, 64, 65, 256, 257]
 
+/-- how many resource records the section loop starts to decode when the header announces `n` of them: it
+    stops at the first record that does not decode (instrumented copy of the recursion of `decodeRRs`) -/
+def rrIters (raw : Bytes) : Nat → Win → Nat
+  | 0, _ => 0
+  | n+1, w =>
+    match decodeRR raw w with
+    | none => 1
+    | some (_, w1) => 1 + rrIters raw n w1
+
+/-- the same for the question section -/
+def qIters (raw : Bytes) : Nat → Win → Nat
+  | 0, _ => 0
+  | n+1, w =>
+    match decodeQuestions raw 1 w with
+    | none => 1
+    | some (_, w1) => 1 + qIters raw n w1
+
+theorem rrIters_le (raw : Bytes) (n : Nat) (w : Win) : rrIters raw n w ≤ n := by
+  induction n generalizing w with
+  | zero => simp [rrIters]
+  | succ k ih =>
+    simp only [rrIters]
+    split
+    · omega
+    · rename_i rr w1 _
+      have := ih w1
+      omega
+
+theorem rrIters_bound (raw : Bytes) (n : Nat) (w : Win) : 11 * rrIters raw n w ≤ w.b.length + 11 := by
+  induction n generalizing w with
+  | zero => simp [rrIters]
+  | succ k ih =>
+    simp only [rrIters]
+    split
+    · omega
+    · rename_i rr w1 h1
+      have a := decodeRR_adv raw w w1 rr h1
+      have b := ih w1
+      omega
+
+/-- a section that decodes made exactly as many iterations as it has records -/
+theorem rrIters_ok (raw : Bytes) (n : Nat) (w w' : Win) (l : List RR)
+    (h : decodeRRs raw n w = some (l, w')) : rrIters raw n w = n := by
+  induction n generalizing w w' l with
+  | zero => simp [rrIters]
+  | succ k ih =>
+    simp only [decodeRRs] at h
+    simp only [rrIters]
+    split at h
+    · simp at h
+    · rename_i rr w1 h1
+      rw [Option.map_eq_some_iff] at h
+      obtain ⟨⟨l', w2⟩, hr, _⟩ := h
+      rw [h1]
+      simp only
+      rw [ih w1 w2 l' hr]
+      omega
+
+theorem qIters_bound (raw : Bytes) (n : Nat) (w : Win) : 5 * qIters raw n w ≤ w.b.length + 5 := by
+  induction n generalizing w with
+  | zero => simp [qIters]
+  | succ k ih =>
+    simp only [qIters]
+    split
+    · omega
+    · rename_i l w1 h1
+      have a := (decodeQuestions_adv raw 1 w w1 l h1).2
+      have b := ih w1
+      omega
+
 end DNS
